@@ -17,9 +17,36 @@ type c08Op struct {
 }
 
 type c08Rec struct {
-	mu    sync.Mutex
-	clock int
-	ops   []c08Op
+	mu      sync.Mutex
+	clock   int
+	ops     []c08Op
+	payload map[int]int
+}
+
+// A stored value is a concrete identity tag (the linearizability search runs on tags) plus an arbitrary symbolic
+// payload that has to come back unchanged, for all its values, from whichever removal returns the tag.
+type c08Item struct{ Tag, Payload int }
+
+// item is only called while no worker goroutine is running (before they start / after they finished)
+func (r *c08Rec) item(tag int) c08Item {
+	if r.payload == nil {
+		r.payload = map[int]int{}
+	}
+	p, ok := r.payload[tag]
+	if !ok {
+		p = vfInt("payload")
+		r.payload[tag] = p
+	}
+	return c08Item{Tag: tag, Payload: p}
+}
+
+// removed records what a removal returned: its tag for the history, its payload checked on the spot
+func (r *c08Rec) removed(it c08Item, err error) int {
+	if err == nil {
+		want, known := r.payload[it.Tag] // read-only while workers run
+		vfAssert("payload-intact", vfImplies(known, it.Payload == want))
+	}
+	return it.Tag
 }
 
 func (r *c08Rec) begin() int {
@@ -89,10 +116,10 @@ func c08RunCfg(lifo bool, deep bool) {
 	if deep {
 		vfSetDelayBound(2)
 	}
-	base := NewLinkedListQueue[int]()
-	q := NewConcurrentQueue[int](base)
-	st := NewConcurrentStack[int](base)
 	rec := &c08Rec{}
+	base := NewLinkedListQueue[c08Item]()
+	q := NewConcurrentQueue[c08Item](base)
+	st := NewConcurrentStack[c08Item](base)
 	maxPrefill := 2
 	if deep {
 		maxPrefill = 1
@@ -100,7 +127,7 @@ func c08RunCfg(lifo bool, deep bool) {
 	prefill := vfRange("prefill", 0, maxPrefill)
 	var initial []int
 	for i := 0; i < prefill; i++ {
-		base.Offer(100 + i)
+		base.Offer(rec.item(100 + i))
 		initial = append(initial, 100+i)
 	}
 	workers := 2 + vfTier()
@@ -116,9 +143,11 @@ func c08RunCfg(lifo bool, deep bool) {
 		}
 		kinds := make([]int, nops)
 		vals := make([]int, nops)
+		items := make([]c08Item, nops)
 		for i := range kinds {
 			kinds[i] = vfChoose("op", 3)
 			vals[i] = nextVal
+			items[i] = rec.item(nextVal)
 			nextVal++
 		}
 		wg.Add(1)
@@ -127,24 +156,24 @@ func c08RunCfg(lifo bool, deep bool) {
 				t := rec.begin()
 				switch {
 				case k == 0 && lifo:
-					st.Push(vals[i])
+					st.Push(items[i])
 					rec.end(c08Op{offer: true, val: vals[i], inv: t})
 				case k == 0:
 					if i%2 == 0 {
-						q.Offer(vals[i])
+						q.Offer(items[i])
 					} else {
-						q.Put(vals[i])
+						q.Put(items[i])
 					}
 					rec.end(c08Op{offer: true, val: vals[i], inv: t})
 				case lifo:
 					v, err := st.Pop()
-					rec.end(c08Op{val: v, ok: err == nil, inv: t})
+					rec.end(c08Op{val: rec.removed(v, err), ok: err == nil, inv: t})
 				case k == 1:
 					v, err := q.Poll()
-					rec.end(c08Op{val: v, ok: err == nil, inv: t})
+					rec.end(c08Op{val: rec.removed(v, err), ok: err == nil, inv: t})
 				default:
 					v, err := q.Take()
-					rec.end(c08Op{val: v, ok: err == nil, inv: t})
+					rec.end(c08Op{val: rec.removed(v, err), ok: err == nil, inv: t})
 				}
 			}
 			wg.Done()
@@ -154,14 +183,14 @@ func c08RunCfg(lifo bool, deep bool) {
 	// drain sequentially: everything offered and not yet removed comes out exactly once
 	for i := 0; i < 8; i++ {
 		t := rec.begin()
-		var v int
+		var v c08Item
 		var err error
 		if lifo {
 			v, err = st.Pop()
 		} else {
 			v, err = q.Poll()
 		}
-		rec.end(c08Op{val: v, ok: err == nil, inv: t})
+		rec.end(c08Op{val: rec.removed(v, err), ok: err == nil, inv: t})
 		if err != nil {
 			break
 		}
@@ -170,15 +199,15 @@ func c08RunCfg(lifo bool, deep bool) {
 	vfAssert("wrapped-structure-consistent", base.Count() == 0)
 	// the wrapped structure must come out of the concurrent phase intact: probe both ends of it directly
 	vfNoPanic("wrapped-structure-intact-nopanic", func() {
-		base.Offer(777)
+		base.Offer(rec.item(777))
 		v, err := base.Pop()
-		vfAssert("wrapped-structure-intact", err == nil && v == 777)
+		vfAssert("wrapped-structure-intact", err == nil && rec.removed(v, err) == 777)
 		_, e1 := base.Shift()
 		_, e2 := base.Pop()
 		vfAssert("wrapped-structure-intact", e1 == ErrQueueIsEmpty && e2 == ErrStackIsEmpty)
-		base.Unshift(778)
+		base.Unshift(rec.item(778))
 		v2, err2 := base.Shift()
-		vfAssert("wrapped-structure-intact", err2 == nil && v2 == 778 && base.Count() == 0)
+		vfAssert("wrapped-structure-intact", err2 == nil && rec.removed(v2, err2) == 778 && base.Count() == 0)
 	})
 	vfReach("end")
 }
